@@ -986,7 +986,8 @@ class CoqJobs:
     def run(self):
         from concurrent.futures import ThreadPoolExecutor
         n = len(self.cases)
-        shard = max(120, -(-n // 12))
+        # every coqc pays ~10 CPU-seconds for loading the libraries: few, large shards
+        shard = max(200, -(-n // (2 if self.ctx.quick else 8)))
 
         def ties():
             return common.coq_failing(IMPORTS, 'jcheck', self.cases, shard=shard, timeout=1200, defs=Intern.text() + JDEFS)
@@ -995,7 +996,7 @@ class CoqJobs:
             if not self.terms:
                 return [], None
             return common.coq_eval_N_lists(IMPORTS, '(fun x : list N => x)', self.terms,
-                                           shard=max(10, -(-len(self.terms) // 4)), timeout=1200, defs=Intern.text())
+                                           shard=max(10, -(-len(self.terms) // (1 if self.ctx.quick else 4))), timeout=1200, defs=Intern.text())
         with ThreadPoolExecutor(max_workers=2) as ex:
             f1, f2 = ex.submit(ties), ex.submit(classes)
             (fails, err), (vals, err2) = f1.result(), f2.result()
@@ -1030,7 +1031,7 @@ def launch_xproc(ctx, cases):
                 (rnd_seed, ctx.rng.randint(1, 10 ** 9)), ('0', ctx.rng.randint(1, 10 ** 9))]
     if not ctx.quick:
         variants += [(str(ctx.rng.randint(2, 4294967295)), ctx.rng.randint(1, 10 ** 9)) for _ in range(3)]
-    nshard = max(1, min(4 if not ctx.quick else 2, common.NPROC // len(variants)))
+    nshard = 1 if ctx.quick else max(1, min(4, common.NPROC // len(variants)))
     shards = [cases[i::nshard] for i in range(nshard)]
     procs = []
     for vi, (hs, pert) in enumerate(variants):
